@@ -403,7 +403,12 @@ def generate(unit_name, repo=None, extra_fn_hook=None, canary=False):
                 if ia and ia.attrs:
                     out.add(ia.attrs.rstrip())
                 out.add(attrs.rstrip() if attrs else "// (no derives)")
-                out.add("pub " + pub_fields(strip_vis(it.text())), item="%s :: %s" % (file, key))
+                txt = pub_fields(strip_vis(it.text()))
+                if kind == "const" and re.search(r":\s*&\s*str\b", txt):
+                    # N9: the elided lifetime of a reference in a const item is 'static (language definition)
+                    txt = re.sub(r":\s*&\s*str\b", ": &'static str", txt, count=1)
+                    info.setdefault("item_rules", []).append({"item": "%s :: %s" % (file, key), "rule": "N9"})
+                out.add("pub " + txt, item="%s :: %s" % (file, key))
                 out.add("")
                 info["items"].append({"item": "%s :: %s" % (file, key), "n7_structural": n7,
                                       "sha256": hashlib.sha256(it.text().encode()).hexdigest()})
